@@ -61,7 +61,7 @@ class RefAgent:
             oid = req.oids[0]
             vbs = []
             for _ in range(n):
-                if len(vbs) >= 64:
+                if len(vbs) >= (64 if self.cap is None or self.cap <= 64 else self.cap):
                     break  # RFC 3416 4.2.3: fewer repetitions when the response would exceed the message size
                 e = self.mib.successor(oid)
                 if e is None:
